@@ -2231,6 +2231,12 @@ static struct uref *upipe_h265f_prepare_annexb(struct upipe *upipe)
         return NULL;
     }
     upipe_h265f->au_nal_units = 0;
+    /* The NAL offsets and the random flag belong to the extracted access
+     * unit, do not leave them for the next one. */
+    if (upipe_h265f->next_uref != NULL) {
+        uref_h26x_delete_nal_offsets(upipe_h265f->next_uref);
+        uref_flow_delete_random(upipe_h265f->next_uref);
+    }
 
     int err = upipe_h265f_prepare_au(upipe, uref);
     UBASE_FATAL(upipe, err);
